@@ -397,6 +397,9 @@ func openClientConnection(name, protocol string) (*clientConnection, error) {
 	} else if strings.ContainsRune(name, os.PathSeparator) {
 		return nil, fmt.Errorf("invalid plugin name: %q", name)
 	}
+	if cc := verifOpenConn(name, protocol); cc != nil {
+		return cc, nil
+	}
 	cmd := exec.Command(path, "--age-plugin="+protocol)
 
 	stdout, err := cmd.StdoutPipe()
@@ -440,6 +443,9 @@ func (cc *clientConnection) Close() error {
 	// Close stdin and stdout and send SIGINT (if supported) to the plugin,
 	// then wait for it to cleanup and exit.
 	cc.close()
+	if verifNoProcess(cc) {
+		return nil
+	}
 	cc.cmd.Process.Signal(os.Interrupt)
 	return cc.cmd.Wait()
 }
